@@ -43,6 +43,8 @@ func init() {
 		fmt.Fprintf(&sb, "|10.%d.0.0/16", i)
 	}
 	sb.WriteString("\n")
+	// a hosts line that names the queried host twice
+	sb.WriteString("1.2.3.4 twice.test\n0.0.0.0 twice.test twice.test\n")
 	c13Lists[1].Text += sb.String()
 }
 
@@ -83,6 +85,7 @@ func c13Ops() []c13Op {
 		{name: "netmatch ads.example.com", query: q("netmatch", "http://ads.example.com/x", "", rules.TypeScript), slot: -1},
 		{name: "engine cdn.test/lib.js from docsite.test (document exception on the referrer)", query: q("engine", "http://cdn.test/lib.js", "http://docsite.test/", rules.TypeScript), slot: 3},
 		{name: "dns kid.test through DNSEngine.Match(hostname)", query: &scen.Query{Kind: "dnsmatch", Host: "kid.test"}, slot: -1},
+		{name: "dns twice.test (a hosts line names it twice)", query: d("twice.test", 1, "", ""), slot: -1},
 		{name: "dns metrics.example.com", query: d("metrics.example.com", 1, "", ""), slot: -1},
 		{name: "engine tracker.test from news.example.org/reader/ (path-specific $urlblock on the referrer)", query: q("engine", "http://tracker.test/t.js", "http://news.example.org/reader/a", rules.TypeScript), slot: -1},
 		{name: "engine tracker.test from news.example.org/front", query: q("engine", "http://tracker.test/t.js", "http://news.example.org/front", rules.TypeScript), slot: -1},
@@ -128,6 +131,9 @@ type c13Model struct {
 	file     bool
 	ops      []c13Op
 	expected []string
+
+	freshOnce  sync.Once
+	freshIndex string
 }
 
 func (m *c13Model) violate(pred string, sig map[string]any, what string, hist []int) {
@@ -158,7 +164,32 @@ func (m *c13Model) run(hist []int) statespace.Outcome {
 			return statespace.Outcome{Key: "crashed", Observation: "crash"}
 		}
 	}
+	// "evaluating ... alters neither the engine ...": the indexes the engines were built with are what a
+	// freshly built engine has (the storage's rule cache and the compiled patterns are the documented lazy state)
+	if len(hist) > 0 {
+		idx := urlfilter.VerifDNSEngineDump(e.DNS) + "\n--\n" + urlfilter.VerifNetworkEngineDump(e.Net)
+		m.freshOnce.Do(func() {
+			f, fst, _ := scen.Build(c13Lists, m.file)
+			m.freshIndex = urlfilter.VerifDNSEngineDump(f.DNS) + "\n--\n" + urlfilter.VerifNetworkEngineDump(f.Net)
+			fst.Close()
+		})
+		if idx != m.freshIndex {
+			m.violate("engine-index-unchanged", map[string]any{"last_op": m.ops[hist[len(hist)-1]].name, "file": m.file},
+				fmt.Sprintf("after this history the lookup tables of the engines differ from those of a freshly built engine (first difference at byte %d of the dump: %q vs fresh %q)", firstDiff(idx, m.freshIndex), clipAt(idx, firstDiff(idx, m.freshIndex)), clipAt(m.freshIndex, firstDiff(idx, m.freshIndex))), hist)
+		}
+	}
 	return m.finish(e, st, pool, held, obs)
+}
+
+func clipAt(s string, i int) string {
+	lo, hi := i-40, i+40
+	if lo < 0 {
+		lo = 0
+	}
+	if hi > len(s) {
+		hi = len(s)
+	}
+	return s[lo:hi]
 }
 
 // step applies one operation.
